@@ -109,7 +109,9 @@ func (k *KVStore) Compaction() (bool, error) {
 				if len(k.tables) == 1 {
 					break
 				}
-				delete(k.tablesByCoefficient, t.Coefficient())
+				// A recycled table has already been removed from tablesByCoefficient
+				// and its coefficient has been reset to zero: deleting that entry
+				// here would drop the live table whose coefficient is zero.
 				k.tables = append(k.tables[:i], k.tables[i+1:]...)
 				i--
 			}
